@@ -21,6 +21,7 @@ _get_ident = _thread.get_ident
 CURRENT = [None]      # the active Sim of this process, if any
 SCOPED = ('mindsdb_sql', 'sly', 'sqlalchemy')
 STATS = {'created': 0, 'contended': 0}
+HELD = {}             # thread id -> number of SimLocks it holds (faults are not injected while > 0)
 
 
 class SimDeadlock(BaseException):
@@ -35,9 +36,14 @@ class SimLock:
         self._owner = None
         STATS['created'] += 1
 
+    def _took(self):
+        me = _get_ident()
+        self._owner = me
+        HELD[me] = HELD.get(me, 0) + 1
+
     def acquire(self, blocking=True, timeout=-1):
         if self._l.acquire(False):
-            self._owner = _get_ident()
+            self._took()
             return True
         if not blocking:
             return False
@@ -46,16 +52,19 @@ class SimLock:
         if c is None:
             ok = self._l.acquire(True, timeout)
             if ok:
-                self._owner = _get_ident()
+                self._took()
             return ok
         STATS['contended'] += 1
         while True:
             sim.lock_yield(c, self._owner)
             if self._l.acquire(False):
-                self._owner = _get_ident()
+                self._took()
                 return True
 
     def release(self):
+        o = self._owner
+        if o is not None and HELD.get(o, 0) > 0:
+            HELD[o] -= 1
         self._owner = None
         self._l.release()
 
